@@ -990,6 +990,25 @@ func exhaustive() (out []session, names []string) {
 			return append(append([]call{k}, as...), up, k2, up, plain(g.mkBlock()), k3, up, up, plan)
 		}, "checks-as-two-plan-groups-and-a-block-group")
 	}
+	// use after emit as the FIRST misuse: after a successful Plan(), every ordered pair of call kinds (Plan() twice,
+	// a mutator then Plan(), two different mutators, bad and nil arguments), then Plan() again, then a Reset that
+	// must clear it and a plan that must be emitted
+	afterEmit := []func() call{
+		func() call { return up }, func() call { return plan }, func() call { return plain(g.mkChecks(2)) },
+		func() call { return plain(g.mkBlock()) }, func() call { return plain(g.mkSeq()) }, func() call { return plain(g.mkAction()) },
+		func() call { c := plain(g.mkBlock()); c.Name = nEmpty; return c }, func() call { return call{Kind: "action", Nil: true} },
+		func() call { return call{Kind: "checks", Nil: true, CType: 1} },
+	}
+	for _, m1 := range afterEmit {
+		for _, m2 := range afterEmit {
+			s := newS()
+			c1, c2 := m1(), m2()
+			c1.Why, c2.Why = "after-emit", "after-emit"
+			s.Calls = []call{plain(g.mkBlock()), plain(g.mkSeq()), plain(g.mkAction()), plan, c1, c2, plan,
+				g.mkReset(true), plain(g.mkBlock()), plan, plan}
+			out, names = append(out, s), append(names, "after-emit-x-after-emit")
+		}
+	}
 	// first misuse kind x second misuse kind: the second call is itself a misuse (incl. the nil argument of
 	// every Add* method) and meets a builder that already holds the first misuse's error
 	at := map[string]struct {
